@@ -35,6 +35,7 @@ inductive St
   | ret (e : Ex)
   | read (dst max : Ex) (res : Nat) -- YY_INPUT(&array[dst], res, max): the reader outside the model puts at most `max`
                                    -- elements at array[dst...] and says in `res` how many
+  | move (dst src n : Ex)          -- memmove(&array[dst], &array[src], n elements): as if through a temporary copy
 deriving Repr, Inhabited
 
 inductive Outcome
@@ -139,6 +140,13 @@ def St.run : St → State → State × Outcome
     match e.eval s with
     | some v => (s, .returned v)
     | none => (s, .oob)
+  | .move dst src n, s =>
+    match dst.eval s, src.eval s, n.eval s with
+    | some d, some f, some c =>
+      if 0 ≤ d ∧ 0 ≤ f ∧ 0 ≤ c ∧ d.toNat + c.toNat ≤ s.arr.length ∧ f.toNat + c.toNat ≤ s.arr.length then
+        ({ s with arr := s.arr.take d.toNat ++ (s.arr.drop f.toNat).take c.toNat ++ s.arr.drop (d.toNat + c.toNat) }, .normal)
+      else (s, .oob)
+    | _, _, _ => (s, .oob)
   | .read dst max res, s =>
     -- the reader may write anywhere in array[dst .. dst+max): all of that must lie inside the array
     match dst.eval s, max.eval s with
